@@ -50,7 +50,7 @@ TraceSound == (phase = "dmg") => GroundTruthSound
 
 \* ------------------------------------------------------------------ side output
 SetToSeq2(S) == IF S = {} THEN <<>> ELSE
-   LET names == <<"AsyncLastBadCommit", "ReplayPastBadTag", "ScanAbort">> IN
+   LET names == <<"AsyncLastBadCommit", "CommitBreakContinues", "ReplayPastBadTag", "ScanAbort">> IN
    SelectSeq(names, LAMBDA n : n \in S)
 OutLine(x) ==
    IF x.e # "load" THEN [e |-> x.e]
